@@ -40,6 +40,7 @@ THEOREMS = [
     "SleapVerif.C16.pairs_total_partial",
     "SleapVerif.C16.pairs_total_asIs_counterexample",
     "SleapVerif.C16.perfect_matching",
+    "SleapVerif.C16.perfect_matching_with_empty",
     "SleapVerif.C16.perfect_scores",
     "SleapVerif.C16.perfect_AP",
     "SleapVerif.C16.percentile_monotone",
@@ -479,9 +480,17 @@ def main(chk: Check):
     def oracle_perfect(case, res):
         _, e, m = res
         bad = []
-        npig = sum(len(f["gt"]) for f in case["frames"])
-        if len(e.positive_pairs) != npig or e.false_negatives:
-            bad.append(("not every gt matched", (len(e.positive_pairs), npig)))
+        is_empty = lambda g: not any(x == x and y == y for x, y in g)
+        n_all = sum(len(f["gt"]) for f in case["frames"])
+        n_empty = sum(1 for f in case["frames"] for g in f["gt"] if is_empty(g))
+        npig = n_all - n_empty   # an empty gt instance (all keypoints NaN) can only be a false negative
+        if len(e.positive_pairs) != npig or len(e.false_negatives) != n_empty:
+            bad.append(("not every (non-empty) gt matched, or something else missed",
+                        (len(e.positive_pairs), len(e.false_negatives), npig, n_empty)))
+        elif any(not is_empty(a.instance.numpy().tolist()) for a in e.false_negatives):
+            bad.append(("a non-empty gt instance is a false negative", len(e.false_negatives)))
+        elif npig == 0:
+            pass
         else:
             if not close(float(m["mOKS"]["mOKS"]), 1.0, 1e-12):
                 bad.append(("mOKS != 1", float(m["mOKS"]["mOKS"])))
@@ -493,9 +502,10 @@ def main(chk: Check):
                 if x not in (0.0, None):
                     bad.append(("distance summary " + k, x))
             v = m["voc_metrics"]
-            if not np.allclose(v["oks_voc.AR"], 1, atol=1e-12):
-                bad.append(("AR != 1", np.asarray(v["oks_voc.AR"]).tolist()))
-            if not np.all(np.asarray(v["oks_voc.AP"]) >= 1 - 1e-9):
+            if not np.allclose(v["oks_voc.AR"], npig / n_all, atol=1e-12):
+                bad.append(("AR != (non-empty gt)/(all gt)", (np.asarray(v["oks_voc.AR"]).tolist(), npig / n_all)))
+            # proved: AP >= n/(n+eps) >= 1 - eps when nothing is missed
+            if n_empty == 0 and not np.all(np.asarray(v["oks_voc.AP"]) >= 1 - 1e-9):
                 bad.append(("AP < 1", np.asarray(v["oks_voc.AP"]).tolist()))
             vis = sum(int((~np.isnan(a.instance.numpy()).any(-1)).sum()) for a, _, _ in e.positive_pairs)
             tot = npig * case["n_nodes"]
@@ -534,6 +544,10 @@ def main(chk: Check):
                 if not any(x == x and y == y for x, y in g):
                     g[0] = [centre[0], centre[1]]
                 gts.append(g)
+            # an *empty* user instance (all keypoints NaN) anywhere in the frame's list
+            empty_at = rng.randrange(len(gts) + 1) if rng.random() < 0.12 else None
+            if empty_at is not None:
+                gts.insert(empty_at, [[float("nan"), float("nan")] for _ in range(n_nodes)])
             if perfect:
                 # gt must be pairwise distinguishable on their visible nodes: regenerate clones
                 pr = [(rng.choice([0.3, 0.5, 0.5, 0.9, rng.random()]), [list(x) for x in g]) for g in gts]
@@ -546,8 +560,8 @@ def main(chk: Check):
                 pr = []
                 for g in gts:
                     u = rng.random()
-                    if u < 0.15:
-                        continue  # missed animal
+                    if u < 0.15 or not any(x == x and y == y for x, y in g):
+                        continue  # missed animal / nothing to predict for an empty instance
                     amp = rng.choice([0, 0.5, 1, 2, 4, 10])
                     p = [[(x if x == x else centre[0]) + (q16(rng, -amp, amp) if amp else 0),
                           (y if y == y else centre[1]) + (q16(rng, -amp, amp) if amp else 0)] for x, y in g]
@@ -614,11 +628,30 @@ def main(chk: Check):
             if tuple(keys[f["video"]]) not in [tuple(k) for k in prv]:
                 f["pr"] = None
 
+    def gen_perfect_total(n):
+        """perfect predictions with exactly `n` gt instances in total (2 keypoints each, animals 64 px apart
+        on a grid so that they are trivially distinguishable), spread over frames of 1-9 animals"""
+        pts = []
+        for i in range(n):
+            x0, y0 = 16.0 + 64.0 * (i % 12), 16.0 + 64.0 * (i // 12)
+            pts.append([[x0 + q16(rng, 0, 8), y0 + q16(rng, 0, 8)], [x0 + 16 + q16(rng, 0, 8), y0 + 24 + q16(rng, 0, 8)]])
+        frames, i = [], 0
+        while i < n:
+            k = min(n - i, rng.randrange(1, 10))
+            gts = pts[i:i + k]
+            pr = [(rng.choice([0.3, 0.5, 0.9, rng.random()]), [list(x) for x in g]) for g in gts]
+            rng.shuffle(pr)
+            frames.append({"gt": gts, "pr": pr})
+            i += k
+        case = {"n_nodes": 2, "frames": frames, "stddev": 0.025, "scale": None, "thr": 0}
+        assign_videos(case, True)
+        return case
+
     def distinguishable(case):
         for f in case["frames"]:
             for i, a in enumerate(f["gt"]):
                 for j, b in enumerate(f["gt"]):
-                    if i != j:
+                    if i != j and any(x == x and y == y for x, y in a) and any(x == x and y == y for x, y in b):
                         va = [(x, y) for x, y in a if x == x and y == y]
                         # b restricted to a's visible nodes must differ somewhere (and be visible there or not)
                         same = all((bx == ax and by == ay) for (ax, ay), (bx, by) in zip(a, b) if ax == ax and ay == ay)
@@ -668,6 +701,13 @@ def main(chk: Check):
         c = gen_case(perfect=True)
         if distinguishable(c):
             cases.append(("perfect", c)); k += 1
+    # perfect predictions whose total number of gt instances sweeps 1..200 (`tp/npig` must reach exactly
+    # 1.0 for every npig, else the recall-1.0 threshold is lost: e.g. 49 * (1/49) != 1 in doubles).
+    # quick: the totals n <= 200 with n * (1.0 / n) != 1.0 plus a random sample; thorough: all of 1..200
+    awkward = [n for n in range(1, 201) if n * (1.0 / n) != 1.0]
+    totals = list(range(1, 201)) if chk.thorough else sorted(set(awkward + rng.sample(range(1, 201), 28)))
+    cases += [("perfect", gen_perfect_total(n)) for n in totals]
+    chk.extra["perfect_totals"] = totals
     impls, lines1 = [], []
     for kind, case in cases:
         res, gi_all, pi_all = run_impl(case)
@@ -683,6 +723,8 @@ def main(chk: Check):
                 "pairs_asis:" + asis]
         if len({tuple(k)[:2] for k in info["case"]["videos"]}) < nvid:
             tags.append("videos_share_a_file")
+        if any(not any(x == x and y == y for x, y in g) for f in case["frames"] for g in f["gt"]):
+            tags.append("has_empty_gt_instance")
         if res[0] == "raise" and res[1] == "AttributeError" and ("dataset" in res[2] or "source_filename" in res[2]):
             chk.case(None, tags=tags)
             if asis == "raise":
